@@ -1,6 +1,6 @@
 (* C17 property theorems.  Statements + exact + Print Assumptions only. *)
 From ZV.Common Require Import Base.
-From ZV.C17 Require Import Spec Model ProofsSpec ProofsPage ProofsLinks ProofsLru ProofsRefine ProofsShard ProofsStamp ProofsTop.
+From ZV.C17 Require Import Spec Model ProofsSpec ProofsPage ProofsLinks ProofsLru ProofsRefine ProofsShard ProofsStamp ProofsStale ProofsTop.
 Open Scope N_scope.
 
 (* ---- S: the recency-list LRU map never exceeds its capacity, for every history ---- *)
@@ -77,6 +77,31 @@ Theorem spec_keys_distinct : forall cap ops, NoDup (keys (fst (s_run cap [] ops)
 Proof. exact spec_keys_distinct_proof. Qed.
 Check spec_keys_distinct : forall cap ops, NoDup (keys (fst (s_run cap [] ops))).
 Print Assumptions spec_keys_distinct.
+
+(* "get(k) returns the most recent value put for k if k has not been evicted or removed": after any history,
+   with u the capacity-free map (latest put per key, minus removes/clears) and e the keys reported to the eviction
+   callback since they were last put: a value returned by get(k) is u's value for k (never stale); a miss happens
+   only if u has no value for k either, or k was reported evicted *)
+Theorem spec_get_most_recent_unless_evicted : forall cap pre k,
+  1 <= cap ->
+  let '(l, u, e) := sue_run cap [] [] [] pre in
+  l = fst (s_run cap [] pre) /\
+  match fst (snd (s_step cap l (Get k))) with
+  | RGet (Some v) => find k u = Some v
+  | RGet None => find k u = None \/ In k e
+  | _ => False
+  end.
+Proof. exact get_fresh_proof. Qed.
+Check spec_get_most_recent_unless_evicted : forall cap pre k,
+  1 <= cap ->
+  let '(l, u, e) := sue_run cap [] [] [] pre in
+  l = fst (s_run cap [] pre) /\
+  match fst (snd (s_step cap l (Get k))) with
+  | RGet (Some v) => find k u = Some v
+  | RGet None => find k u = None \/ In k e
+  | _ => False
+  end.
+Print Assumptions spec_get_most_recent_unless_evicted.
 
 (* get(k) right after put(k,v) returns v *)
 Theorem spec_put_then_get : forall cap l k v,
